@@ -131,7 +131,7 @@ func runC06(c *core.Ctx) {
 				c.Sample("mac", map[string]interface{}{"layout": l.Name, "bytes": hex.EncodeToString(b), "fields": l.Decode(b)})
 			}
 		}
-		n := c.N(20000, 3000000)
+		n := c.N(20000, 20000000)
 		const chunk = 1000
 		for blk := int64(1); blk <= n/chunk; blk++ {
 			if !c.Mine(mon, blk) {
@@ -219,7 +219,7 @@ func runC06(c *core.Ctx) {
 	}
 
 	// ------------------------------------------------ decode, modify, re-encode (a forwarding network server does this)
-	m := c.N(10000, 500000)
+	m := c.N(10000, 5000000)
 	for i := int64(0); i < m; i++ {
 		if !c.Mine("frames-reencode", i) {
 			continue
@@ -259,7 +259,7 @@ func runC06(c *core.Ctx) {
 	// ------------------------------------------------ spec bytes decoded into re-used values
 	var reusedPHY lorawan.PHYPayload
 	var reusedMP lorawan.MACPayload
-	k := c.N(10000, 500000)
+	k := c.N(10000, 5000000)
 	for i := int64(0); i < k; i++ {
 		if !c.Mine("frames-reused-target", i) {
 			continue
@@ -296,7 +296,7 @@ func runC06(c *core.Ctx) {
 	}
 
 	// ------------------------------------------------ frames against the spec serialisers
-	n := c.N(20000, 1000000)
+	n := c.N(20000, 10000000)
 	for i := int64(0); i < n; i++ {
 		if !c.Mine("frames", i) {
 			continue
